@@ -18,7 +18,8 @@ RULE = (
     "reachable), structure class and start block: ops = patch at an item-anchored offset "
     "(delta -1/0/+1, length 1..5, random bytes), sparse bit flips inside an item's bytes, full "
     "refresh (new or identical block), watch / watch-twice / unwatch / unwatch_all with plain "
-    "functions and bound methods. All items of the pair are watched. Non-trivial = an update "
+    "functions and bound methods, and observers that act from inside their callback (remove a later observer, themselves or all "
+    "observers; apply a nested update to a far-away item). All items of the pair are watched. Non-trivial = an update "
     "that touches bytes of an item without changing its decoded value, or touches exactly one "
     "byte of a 2-byte item, or a history with an unwatch/double watch; distinct by canonical case."
 )
@@ -111,7 +112,8 @@ def strategy(tier):
         st.builds(lambda i, o, b: [["unwatch_all", i], ["watch2", i, o], ["flip", i, b], ["unwatch", i, o], ["flip", i, b]],
                   st.integers(0, 2000), st.integers(0, N_OBS - 1), bits),
     )
-    item = st.one_of(ops.map(lambda o: [o]), ops.map(lambda o: [o]), ops.map(lambda o: [o]), ops.map(lambda o: [o]), churn)
+    reent = st.builds(lambda i, a, b: [["reent", i, a, b]], st.integers(0, 2000), st.sampled_from(["unwatch-later", "unwatch-self", "unwatch-all", "poke"]), bits)
+    item = st.one_of(ops.map(lambda o: [o]), ops.map(lambda o: [o]), ops.map(lambda o: [o]), ops.map(lambda o: [o]), churn, reent)
     return st.builds(
         lambda ci, cls, seed, fill, o: {"combo": ci, "cls": cls, "seed": seed, "fill": fill, "ops": [x for grp in o for x in grp][:14]},
         st.integers(0, ncombo - 1),
@@ -172,7 +174,8 @@ def run_case(case) -> Result:
     nontrivial = False
     hist_special = False
 
-    def do_update(off, seg, label):
+    def do_update(off, seg, label, reent=None):
+        """reent (observer acting from inside its callback): {"override": {(tag, oid): expected calls}, "nested": (off, seg) or None}"""
         nonlocal block, nontrivial
         old = block
         new = old[:off] + seg + old[off + len(seg):]
@@ -180,7 +183,13 @@ def run_case(case) -> Result:
         log.clear()
         s.replace_status_block_segment(off, seg)
         block = new
-        if s.status_block != new:
+        override = (reent or {}).get("override", {})
+        nested = (reent or {}).get("nested")
+        final = new
+        if nested is not None and nested.get("fired"):
+            final = new[:nested["off"]] + nested["seg"] + new[nested["off"] + len(nested["seg"]):]
+            block = final
+        if s.status_block != final:
             res.fail("C03|block-not-replaced", f"{label}: structure block differs from old[:off]+segment+old[off+len:]")
         touched = set()
         for b in range(off, off + len(seg)):
@@ -204,6 +213,14 @@ def run_case(case) -> Result:
             sig_tail = f"{it.kind}|w{it.width}|{'bits' if it.mask is not None else 'whole'}|{geo}"
             for oid in model[t]:
                 got = calls.pop((t, oid), [])
+                if (t, oid) in override:
+                    # an observer that an earlier observer of the same round removed must not be called any more; one that was
+                    # not removed must still be called although the list changed under the iteration
+                    want = override[(t, oid)] if changed else 0
+                    if len(got) != want:
+                        res.fail(f"C03|reentrant|{label}|{'called-after-removal' if len(got) > want else 'skipped'}",
+                                 f"{t}: observer {oid} called {len(got)} times, expected {want} ({label}: an earlier observer acts from inside its callback)")
+                    continue
                 if changed and len(got) == 0:
                     res.fail(f"C03|missing-notification|{sig_tail}",
                              f"{plat}/{cv}/{lv} {t} ({label} off={off} len={len(seg)}): value {so!r} -> {sn!r} but observer {oid} was not called")
@@ -217,7 +234,7 @@ def run_case(case) -> Result:
                     sender, o, n, blk = got[0]
                     if sender is not s.accessors[t]:
                         res.fail(f"C03|wrong-sender|{it.kind}", f"{t}: sender {sender!r}")
-                    if blk != new:
+                    if blk != new and blk != final:
                         res.fail(f"C03|stale-block-in-callback|{it.kind}", f"{t}: observer read a block that is not the new block")
                     if it.kind == "Temp":
                         if not unit_changed:
@@ -228,6 +245,19 @@ def run_case(case) -> Result:
                         eo, en = it.decode(old), it.decode(new)
                         if (o, n) != (eo, en) or type(o) is not type(eo) or type(n) is not type(en):
                             res.fail(f"C03|wrong-args|{it.kind}", f"{t}: observer got ({o!r},{n!r}) expected ({eo!r},{en!r})")
+        # the nested update an observer made from inside its callback: every item it touches notifies exactly once iff changed
+        if nested is not None and nested.get("fired"):
+            for b in range(nested["off"], nested["off"] + len(nested["seg"])):
+                for t in by_byte.get(b, ()):
+                    it = p.items[t]
+                    ch = it.stored(new) != it.stored(final)
+                    for oid in model[t]:
+                        got = calls.pop((t, oid), None)
+                        if got is None:
+                            got = []
+                        if len(got) != (1 if ch else 0):
+                            res.fail(f"C03|reentrant|nested-update|{it.kind}", f"{t}: observer {oid} called {len(got)} times for the nested update "
+                                     f"({it.stored(new)!r} -> {it.stored(final)!r})")
         # anything left was a call for an item that was not touched or an observer not registered
         for (t, oid), got in calls.items():
             it = p.items[t]
@@ -293,6 +323,67 @@ def run_case(case) -> Result:
             t = tags[op[1] % len(tags)]
             s.accessors[t].unwatch_all()
             model[t] = []
+            hist_special = True
+        elif k == "reent":
+            # two extra observers A, B on one item; A acts from inside its callback, then the item is changed
+            t = tags[op[1] % len(tags)]
+            it = p.items[t]
+            action = op[2]
+            if action not in ("unwatch-later", "unwatch-self", "unwatch-all", "poke") or it.pos + it.width > packs.BLOCK:
+                raise InvalidCase(op) if action not in ("unwatch-later", "unwatch-self", "unwatch-all", "poke") else None
+            if it.pos + it.width > packs.BLOCK or "A" in model[t]:
+                continue
+            cur = int.from_bytes(block[it.pos:it.pos + it.width], "big")
+            for bit in op[3]:
+                cur ^= 1 << (bit % (8 * it.width))
+            seg = cur.to_bytes(it.width, "big")
+            newblk = block[:it.pos] + seg + block[it.pos + it.width:]
+            if it.stored(block) == it.stored(newblk):
+                continue   # the item would not change: nothing fires
+            acc = s.accessors[t]
+            nested = None
+            if action == "poke":
+                # a write to a far-away item, applied at once (local echo), disjoint from everything the outer update touches
+                zoff = (it.pos + 512) % (packs.BLOCK - 2)
+                zseg = bytes([block[zoff] ^ 0x5A, block[zoff + 1] ^ 0xA5])
+                nested = {"off": zoff, "seg": zseg, "fired": False}
+            state = {"done": False}
+
+            def obs_a(sender, old_v, new_v, _t=t):
+                log.append(((_t, "A"), sender, old_v, new_v, s.status_block))
+                if state["done"]:
+                    return
+                state["done"] = True
+                if action == "unwatch-later":
+                    acc.unwatch(obs_b)
+                elif action == "unwatch-self":
+                    acc.unwatch(obs_a)
+                elif action == "unwatch-all":
+                    acc.unwatch_all()
+                else:
+                    nested["fired"] = True
+                    s.replace_status_block_segment(nested["off"], nested["seg"])
+
+            def obs_b(sender, old_v, new_v, _t=t):
+                log.append(((_t, "B"), sender, old_v, new_v, s.status_block))
+
+            acc.watch(obs_a)
+            acc.watch(obs_b)
+            model[t] = model[t] + ["A", "B"]
+            override = {(t, "A"): 1, (t, "B"): 1 if action in ("unwatch-self", "poke") else 0}
+            do_update(it.pos, seg, "reentrant-" + action, reent={"override": override, "nested": nested})
+            # what is still registered afterwards
+            if action == "unwatch-all":
+                model[t] = []
+            else:
+                left = [o for o in model[t] if o not in ("A", "B")]
+                if action in ("unwatch-later", "poke"):
+                    acc.unwatch(obs_a)
+                    if action == "poke":
+                        acc.unwatch(obs_b)
+                elif action == "unwatch-self":
+                    acc.unwatch(obs_b)
+                model[t] = left
             hist_special = True
         else:
             raise InvalidCase(op)
